@@ -263,6 +263,44 @@ def dumps(res, ctx, rng):
         if not entry_points_agree(res, data, reduced, f'{len(removed)} ids removed', dict(case, removed=sorted(removed))):
             continue
         res.count('reduced_tables_checked')
+        # the supplied table in every kind of mapping object a caller may hold it in (the API asks for a Mapping): a
+        # read-only view, a chain of an override over a base, a UserDict, a Mapping implemented from scratch, dict
+        # subclasses - the listing and the traces are those of the plain dict with the same items
+        import collections
+        import types
+
+        class FromScratch(collections.abc.Mapping):
+            def __init__(self, d):
+                self._d = dict(d)
+
+            def __getitem__(self, k):
+                return self._d[k]
+
+            def __iter__(self):
+                return iter(self._d)
+
+            def __len__(self):
+                return len(self._d)
+        half = dict(list(reduced.items())[:len(reduced) // 2])
+        rest = {k: v for k, v in reduced.items() if k not in half}
+        containers = {'MappingProxyType': types.MappingProxyType(dict(reduced)), 'ChainMap': collections.ChainMap(half, rest),
+                      'UserDict': collections.UserDict(reduced), 'Mapping implemented from scratch': FromScratch(reduced),
+                      'OrderedDict': collections.OrderedDict(reduced), 'defaultdict': collections.defaultdict(str, reduced)}
+        kind = rng.choice(sorted(containers))
+        try:
+            lst_c = front(data, containers[kind], 'kevents')
+            trs_c = front(data, containers[kind], 'traces')
+        except Exception as x:
+            res.violation(f'c19-mapping-kind-raises-{core.exc_name(x)}', f'supplied table held in a {kind}: {x!r}',
+                          dict(case, removed=sorted(removed)))
+            continue
+        if lst_c != lst or trs_c != trs:
+            res.violation('c19-supplied-table-ignored-for-some-mapping-kinds', f'supplied table held in a {kind}: the listing '
+                          f'{"differs" if lst_c != lst else "equals"} and the traces {"differ" if trs_c != trs else "equal"} '
+                          f'those under a plain dict with the same items ({len(trs_c)} vs {len(trs)} traces)',
+                          dict(case, removed=sorted(removed)))
+            continue
+        res.count('mapping_kinds_checked')
         # a supplied table that also holds ids with qualifier bits set (legal table text): events are looked up by their
         # event id (qualifier bits cleared), never by the full debug id
         odd = dict(reduced)
@@ -421,6 +459,7 @@ def run(ctx):
                         'ids of the hard-coded real-fault range are not re-assigned (that composite is C20\'s)']
     res.require('table_texts_compared', 50)
     res.require('reduced_tables_checked', 5)
+    res.require('mapping_kinds_checked', 12)
     res.require('reassigned_tables_checked', 5)
     res.require('tables_with_names_under_several_ids_checked', 5)
     res.require('in_place_edits_checked', 5)
